@@ -13,6 +13,11 @@ func streamWorkload(name string, count map[string]int, opts streamGenOpts) *Work
 		Count: func(tier string) int { return count[tier] },
 		Gen: func(i int, t *Tape, tier string) any {
 			o := opts
+			if tier == "thorough" {
+				// deeper bounds: more files and more values per file
+				o.maxFiles++
+				o.maxVals += 4
+			}
 			if tier == "thorough" && o.bigProb > 0 {
 				o.bigProb *= 2
 				o.bigMax = 12000
